@@ -18,6 +18,7 @@ import time
 
 import common
 import c07_graphs as G
+import c07_harvest as H
 import c07_oracle as O
 
 DRIVER = os.path.join(common.VERIF, "harness", "ocaml", "solver_driver.ml")
@@ -299,6 +300,53 @@ def random_cases(r, tier_scale):
   return cases
 
 
+def harvested_cases(res, r, n_programs):
+  """Typegraphs the real VM builds: analyse small generated programs (branches, joins, conditional
+  expressions, boolean operators), dump the final typegraph through the public cfg API, ask
+  IsVisible for every binding the program itself created at every non-root node (+ some
+  combinations with their subsets), reduce the graph to what the queries read.  The answers of the
+  ORIGINAL program object are compared with the answers of the rebuilt graph (is the dump faithful?)."""
+  from pytype import config, io  # pylint: disable=import-outside-toplevel
+  cases = []
+  n_ok = n_diff = 0
+  t0 = time.time()
+  for i, src in enumerate(H.programs(r, n_programs)):
+    try:
+      ret, _ = io.generate_pyi(src, config.Options.create(python_version=(3, 12)))
+      p = ret.context.program
+      desc, nodes, bs = H.dump_program(p)
+    except Exception:  # pylint: disable=broad-except
+      continue          # not explorable (pytype error / missing typeshed): not a violation
+    own = sorted(i for i, b in bs.items() if any(o.where.id >= 1 for o in b.origins))
+    if len(own) > 40:
+      own = sorted(r.sample(own, 40))
+    interest = list(range(1, len(nodes)))
+    if not own or not interest:
+      continue
+    qs = H.harvest_queries(r, desc, interest, own, max_sets=12)
+    # what the live program object answers (its solver may hold the VM's own memo; these graphs are acyclic)
+    orig = ["1" if bs[q[2][0]].IsVisible(nodes[q[1]]) else "0" for q in qs if len(q[2]) == 1]
+    d2, q2 = H.reduce_desc(desc, qs)
+    try:
+      _, ans = run_impl_case(d2, q2)
+    except Exception as e:  # pylint: disable=broad-except
+      res.obligation("harvest:rebuild:%d" % i, False, repr(e))
+      continue
+    rebuilt = [a for q, a in zip(q2, ans) if len(q[2]) == 1]
+    n_ok += 1
+    if orig != rebuilt:
+      n_diff += 1
+      if n_diff <= 2:
+        res.obligation("harvest:rebuilt-graph-answers-like-the-live-program:%d" % i, False,
+                       "src=%r first difference at query %d" % (
+                           src, next(k for k, (a, b) in enumerate(zip(orig, rebuilt)) if a != b)))
+    cases.append(("real%d" % i, d2, q2, "shared"))
+  res.extra["harvested_programs"] = n_ok
+  res.extra["harvest_wall_s"] = round(time.time() - t0, 1)
+  res.obligation("harvest:rebuilt-graphs-faithful", n_diff == 0, "%d of %d programs differ" % (n_diff, n_ok))
+  return cases
+
+
 def sampled_scope_case(r):
   """Uniform-ish sample from the design's small scope: <=4 nodes, <=5 edges, 2 variables, <=4 bindings,
   <=2 origins with <=2 source sets each, <=1 condition; all query nodes, all goal subsets <=3."""
@@ -470,7 +518,10 @@ def run(res):
       "with 0..3 origins x 1..2 source sets of size 0..3, node conditions in 1/2 of the graphs; plus "
       "directed loop graphs carrying a source-set dependency cycle, conditions after the loop and goals "
       "with no / unreachable origins; and directed 'braid' graphs (a shortest path with overlapping "
-      "detours around conditional nodes). Queries per graph: HasCombination on random nodes x goal sets of "
+      "detours around conditional nodes); and typegraphs HARVESTED FROM REAL VM RUNS (small generated "
+      "programs with branches/joins/conditional expressions analysed by pytype, final typegraph dumped "
+      "through the public cfg API, IsVisible asked for every program-made binding at every node, answers "
+      "of the live program compared with the rebuilt graph). Queries per graph: HasCombination on random nodes x goal sets of "
       "size 1..3 followed by every non-empty proper subset, CanHaveCombination, Filter(strict/non-strict), "
       "IsVisible, a duplicate-goal vector and the empty vector; all answered by ONE solver (memo and path "
       "cache shared across the queries) or, in 1/4 of the cases, with the solver invalidated before every "
@@ -501,6 +552,7 @@ def run(res):
   cases = load_corpus()
   n_corpus = len(cases)
   cases += random_cases(r, 6 if thorough else 1)
+  cases += harvested_cases(res, common.rng(res.seed, "c07-harvest"), 250 if thorough else 36)
   if thorough:
     for i in range(150000):
       d, qs = sampled_scope_case(r)
